@@ -35,6 +35,8 @@ struct Tr {
     data: Vec<u8>,
     name: String,
     name_class: &'static str,
+    idx: usize,     // 1-based position in the case (part of the generated names)
+    base_id: usize, // transfers with the same base_id share one base name
     pre: bool,
     ecu: &'static str,
     lc: u32,
@@ -190,6 +192,9 @@ fn walk(dir: &Path, files: &mut Vec<PathBuf>) {
 struct Obs {
     kinds: Vec<String>,
     saves: Vec<bool>,
+    /// final auto-save directory: (base id of the name, transfer whose original bytes the file has / 0)
+    dir: Vec<(usize, usize)>,
+    envs: Vec<Value>,
 }
 
 struct Dirs {
@@ -197,13 +202,17 @@ struct Dirs {
     cmd: PathBuf,
 }
 
-fn hdr_json(cfg: &Cfg, trs: &[Tr], wire: &[Item], src: &str) -> Value {
+fn hdr_json(cfg: &Cfg, trs: &[Tr], wire: &[Item], src: &str, envs: &[Value]) -> Value {
     json!({
         "cfg": {"allow_save": cfg.allow_save, "auto": cfg.auto, "keep_flda": cfg.keep_flda, "apid_filter": cfg.apid_filter, "glob": cfg.glob},
         "tr": trs.iter().map(|t| json!({"lens": t.lens, "size": t.data.len(), "hash": hash31(&t.data), "pre": t.pre, "name": t.name,
+                "base": base_name(t.name_class, t.idx, t.serial), "base_id": t.base_id,
                 "name_class": t.name_class, "key": {"ecu": t.ecu, "lc": t.lc, "serial": t.serial}})).collect::<Vec<_>>(),
         "wire": wire.iter().map(|i| json!({"t": i.t, "k": i.k, "pkg": i.pkg, "len": i.payload.len(), "orig": i.orig, "noise": i.noise})).collect::<Vec<_>>(),
         "src": src,
+        "lost_name": "<missing_flst>",   // the file name the plugin uses for a transfer whose announcement it never saw
+        // files the driver itself put into the auto-save directory (before the run: at = 0; at wire item i: at = i)
+        "env": envs,
     })
 }
 
@@ -215,6 +224,10 @@ fn name_for(class: &'static str, t: usize, case_dir: &Path) -> String {
         "dotdot" => format!("../x{}.bin", t),
         "abs" => format!("{}/outside/y{}.bin", case_dir.display(), t),
         "deep" => format!("a/../../z{}.bin", t),
+        // transfers sharing ONE base name: different directory parts / identical full names / absolute vs climbing
+        "shared_sub" => format!("d{}/same.bin", t),
+        "shared_same" => "same.bin".to_string(),
+        "shared_mix" => if t % 2 == 1 { format!("{}/outside/same.bin", case_dir.display()) } else { "../same.bin".to_string() },
         _ => "..".to_string(), // no file name at all
     }
 }
@@ -225,6 +238,7 @@ fn base_name(class: &'static str, t: usize, serial: u32) -> String {
         "dotdot" => format!("x{}.bin", t),
         "abs" => format!("y{}.bin", t),
         "deep" => format!("z{}.bin", t),
+        "shared_sub" | "shared_same" | "shared_mix" => "same.bin".to_string(),
         _ => format!("<invalid_filename serial {}>", serial),
     }
 }
@@ -239,6 +253,10 @@ fn run_case(dirs: &Dirs, case: u64, cfg: &Cfg, trs: &mut Vec<Tr>, wire: &[Item],
         std::fs::create_dir_all(&save_dir).unwrap();
         std::fs::create_dir_all(case_dir.join("outside")).unwrap();
         for (i, t) in trs.iter_mut().enumerate() {
+            t.idx = i + 1;
+            if t.base_id == 0 {
+                t.base_id = i + 1;
+            }
             t.name = name_for(t.name_class, i + 1, &case_dir);
             if t.pre {
                 // a file with the name the auto-save would use already exists (in the auto-save dir; and where the raw name points)
@@ -253,6 +271,10 @@ fn run_case(dirs: &Dirs, case: u64, cfg: &Cfg, trs: &mut Vec<Tr>, wire: &[Item],
         }
     } else {
         for (i, t) in trs.iter_mut().enumerate() {
+            t.idx = i + 1;
+            if t.base_id == 0 {
+                t.base_id = i + 1;
+            }
             t.name = name_for(t.name_class, i + 1, Path::new("/nonexistent-verif-c17"));
         }
     }
@@ -260,6 +282,35 @@ fn run_case(dirs: &Dirs, case: u64, cfg: &Cfg, trs: &mut Vec<Tr>, wire: &[Item],
     if cfg.auto {
         walk(&case_dir, &mut before);
     }
+    let mut envs: Vec<Value> = pre_files.iter().map(|(p, c)| json!({"name": p.strip_prefix(&save_dir).unwrap().display().to_string(),
+        "len": c.len(), "hash": hash31(c), "at": 0})).collect();
+    // environment events: a file named like a transfer's base name appears in the auto-save directory at that point of the script
+    let mut env_plan: Vec<Option<(PathBuf, Vec<u8>)>> = Vec::new();
+    for (i, it) in wire.iter().enumerate() {
+        if it.k == "ENV" && cfg.auto {
+            let tr = trs.iter().find(|t| t.base_id == it.pkg as usize).expect("env base");
+            let p = save_dir.join(base_name(tr.name_class, tr.idx, tr.serial));
+            let content = rng.bytes(11);
+            envs.push(json!({"name": p.strip_prefix(&save_dir).unwrap().display().to_string(), "len": content.len(), "hash": hash31(&content), "at": i + 1}));
+            before.push(p.clone());
+            env_plan.push(Some((p, content)));
+        } else {
+            env_plan.push(None);
+        }
+    }
+    let list_dir = |auto: bool| -> Vec<Value> {
+        let mut v = Vec::new();
+        if auto {
+            let mut fs = Vec::new();
+            walk(&save_dir, &mut fs);
+            fs.sort();
+            for p in fs {
+                let b = std::fs::read(&p).unwrap_or_default();
+                v.push(json!({"name": p.strip_prefix(&save_dir).unwrap().display().to_string(), "len": b.len(), "hash": hash31(&b)}));
+            }
+        }
+        v
+    };
     let trs_ro: &Vec<Tr> = trs;
     let mut last_entries: Vec<(usize, &'static str)> = Vec::new();
     let res = catch(std::panic::AssertUnwindSafe(|| {
@@ -279,11 +330,22 @@ fn run_case(dirs: &Dirs, case: u64, cfg: &Cfg, trs: &mut Vec<Tr>, wire: &[Item],
         let state = plugin.state();
         let mut entries: Vec<(usize, &'static str)> = Vec::new();
         for (i, it) in wire.iter().enumerate() {
-            let mut m = build_msg(i as u32, it, trs_ro);
-            let fwd = plugin.process_msg(&mut m);
+            let mut fwd = true;
+            if it.k == "ENV" {
+                // not a message: the environment creates a file in the auto-save directory (only if the name is still free)
+                if let Some((p, content)) = &env_plan[i] {
+                    if !p.exists() {
+                        std::fs::write(p, content).unwrap();
+                    }
+                }
+            } else {
+                let mut m = build_msg(i as u32, it, trs_ro);
+                fwd = plugin.process_msg(&mut m);
+            }
             entries = project(&state.read().unwrap().value, trs_ro);
             let kinds: Vec<Vec<&str>> = (1..=trs_ro.len()).map(|t| entries.iter().filter(|e| e.0 == t).map(|e| e.1).collect()).collect();
-            evs.push(json!({"ev":"msg","i":i + 1,"fwd":fwd,"kinds":kinds,"other_entries":entries.iter().filter(|e| e.0 == 0).count()}));
+            evs.push(json!({"ev":"msg","i":i + 1,"fwd":fwd,"kinds":kinds,"other_entries":entries.iter().filter(|e| e.0 == 0).count(),
+                "dir": list_dir(cfg.auto)}));
         }
         plugin.sync_all();
         // save every state entry through the command interface
@@ -315,7 +377,19 @@ fn run_case(dirs: &Dirs, case: u64, cfg: &Cfg, trs: &mut Vec<Tr>, wire: &[Item],
         }
         (evs, entries, saves)
     }));
-    let mut obs = Obs { kinds: vec!["none".to_string(); trs.len()], saves: vec![false; trs.len()] };
+    let mut obs = Obs { kinds: vec!["none".to_string(); trs.len()], saves: vec![false; trs.len()], dir: vec![], envs };
+    if cfg.auto {
+        let mut fs = Vec::new();
+        walk(&save_dir, &mut fs);
+        for p in fs {
+            let b = std::fs::read(&p).unwrap_or_default();
+            let name = p.strip_prefix(&save_dir).unwrap().display().to_string();
+            let bid = trs.iter().find(|t| base_name(t.name_class, t.idx, t.serial) == name).map(|t| t.base_id).unwrap_or(0);
+            let owner = trs.iter().position(|t| t.data == b).map(|i| i + 1).unwrap_or(0);
+            obs.dir.push((bid, owner));
+        }
+        obs.dir.sort();
+    }
     let res = match res {
         Err(msg) => Err(msg),
         Ok((mut evs, entries, saves)) => {
@@ -382,7 +456,7 @@ fn keys_for(variant: u64, t: usize) -> (&'static str, u32, u32) {
 
 fn make_tr(rng: &mut Rng, lens: Vec<usize>, bs: usize, class: &'static str, pre: bool, key: (&'static str, u32, u32)) -> Tr {
     let total: usize = lens.iter().sum();
-    Tr { data: rng.bytes(total), lens, name: String::new(), name_class: class, pre, ecu: key.0, lc: key.1, serial: key.2, bs }
+    Tr { data: rng.bytes(total), lens, name: String::new(), name_class: class, idx: 0, base_id: 0, pre, ecu: key.0, lc: key.1, serial: key.2, bs }
 }
 
 /// the originals of one case are pairwise different, so that a saved file identifies its transfer (1-byte files could collide)
@@ -448,7 +522,16 @@ fn main() {
         for (si, scn) in scns.iter().enumerate() {
             let idx = si as u64;
             let r = idx + seed;
-            let cfg = cfg_for(r, idx);
+            let mut cfg = cfg_for(r, idx);
+            // scenarios of the auto-save model (shared base names, files appearing in the directory) always run with auto-save on
+            let auto_scn = scn["auto"].as_bool().unwrap_or(false);
+            if auto_scn {
+                cfg.auto = true;
+                cfg.allow_save = idx % 4 != 3;
+                cfg.glob = "*";
+            }
+            let bases: Vec<usize> = scn["base"].as_array().map(|v| v.iter().map(|b| b.as_u64().unwrap() as usize).collect()).unwrap_or_default();
+            let shared = auto_scn && bases.len() > 1 && bases[0] == bases[1];
             let unit: usize = [1, 1, 7, 64][(idx % 4) as usize];
             let shapes = scn["shape"].as_array().unwrap();
             let mut trs = Vec::new();
@@ -458,9 +541,13 @@ fn main() {
                 let last = sh["last"].as_u64().unwrap() as usize * unit;
                 let mut lens = vec![bs; n];
                 lens[n - 1] = last;
-                let class = NAME_CLASSES[((idx / 2) as usize + ti * 2) % NAME_CLASSES.len()];
-                let pre = cfg.auto && r % 32 == 15 && (ti as u64 + idx / 16) % 2 == 0;
-                trs.push(make_tr(&mut rng, lens, bs, class, pre, keys_for(idx / 3, ti)));
+                let class = if shared { ["shared_sub", "shared_same", "shared_mix"][(idx % 3) as usize] } else { NAME_CLASSES[((idx / 2) as usize + ti * 2) % NAME_CLASSES.len()] };
+                let pre = !auto_scn && cfg.auto && r % 32 == 15 && (ti as u64 + idx / 16) % 2 == 0;
+                let mut tr = make_tr(&mut rng, lens, bs, class, pre, keys_for(idx / 3, ti));
+                if auto_scn {
+                    tr.base_id = bases[ti];
+                }
+                trs.push(tr);
                 if n == 1 { bump!("file_of_one_package"); }
                 if last < bs { bump!("last_package_shorter"); }
                 if bs == 1 { bump!("package_size_1"); }
@@ -474,6 +561,7 @@ fn main() {
                     "FLST" => "FLST",
                     "FLDA" => "FLDA",
                     "FLFI" => "FLFI",
+                    "ENV" => "ENV",
                     _ => "X",
                 };
                 let pkg = w["pkg"].as_u64().unwrap() as u32;
@@ -492,6 +580,8 @@ fn main() {
                 bump!(format!("fault_{}", f.as_str().unwrap()));
             }
             if shapes.len() > 1 { bump!("two_transfers"); }
+            if shared { bump!("shared_base_name"); }
+            if wire.iter().any(|i| i.k == "ENV") { bump!("file_appears_in_auto_save_dir"); }
             if wire.iter().any(|i| i.t == 0) { bump!("with_unrelated_message"); }
             bump!(format!("cfg_{}", if cfg.auto { if cfg.allow_save { "allow_save+auto_save" } else { "auto_save_only" } } else { "allow_save" }));
             let (res, obs) = run_case(&dirs, case, &cfg, &mut trs, &wire, &mut rng);
@@ -501,11 +591,19 @@ fn main() {
             let contract_ok = scn["contract_ok"].as_bool().unwrap();
             let base_cfg = cfg.allow_save && !cfg.auto;
             // design conformance is measured on the state kinds (all configurations) and the saves (base configuration)
-            let same = res.is_ok() && obs.kinds == pk && (!base_cfg || obs.saves == ps);
+            // ... and, for the auto-save scenarios with saving allowed, on the final content of the auto-save directory
+            let pd: Option<Vec<(usize, usize)>> = if auto_scn && cfg.allow_save {
+                let mut v: Vec<(usize, usize)> = scn["dir"].as_array().unwrap().iter().map(|e| (e["b"].as_u64().unwrap() as usize, e["c"].as_u64().unwrap() as usize)).collect();
+                v.sort();
+                Some(v)
+            } else {
+                None
+            };
+            let same = res.is_ok() && obs.kinds == pk && (!base_cfg || obs.saves == ps) && pd.as_ref().map(|v| *v == obs.dir).unwrap_or(true);
             if !same {
                 drift += 1;
                 if drift_samples.len() < 3 {
-                    drift_samples.push(json!({"scenario": scn, "observed_kinds": obs.kinds, "observed_saves": obs.saves}));
+                    drift_samples.push(json!({"scenario": scn, "observed_kinds": obs.kinds, "observed_saves": obs.saves, "observed_dir": obs.dir}));
                 }
             }
             if !contract_ok { pred_not_ok += 1; }
@@ -515,7 +613,7 @@ fn main() {
                 continue;
             }
             slow += 1;
-            emit_case(&mut t, case, hdr_json(&cfg, &trs, &wire, "tlc"), res);
+            emit_case(&mut t, case, hdr_json(&cfg, &trs, &wire, "tlc", &obs.envs), res);
             case += 1;
         }
     }
@@ -532,15 +630,19 @@ fn main() {
         cfg.apid_filter = rng.chance(1, 2);
         let mut trs = Vec::new();
         let mut scripts: Vec<Vec<Item>> = Vec::new();
+        // interleaved transfers may share one base name (different directory parts / identical names)
+        let shared_class: Option<&'static str> = if cfg.auto && k > 1 && rng.chance(1, 3) { Some(*rng.pick(&["shared_sub", "shared_same", "shared_mix"])) } else { None };
+        if shared_class.is_some() { bump!("rnd_shared_base_name"); }
         for ti in 0..k {
             let n = rng.range(1, max_pk) as usize;
             let bs = match rng.below(4) { 0 => 1, 1 => rng.range(1, 4), _ => rng.range(1, max_bs) } as usize;
             let last = if rng.chance(1, 3) { bs } else { rng.range(1, bs as u64) as usize };
             let mut lens = vec![bs; n];
             lens[n - 1] = last;
-            let class = *rng.pick(&NAME_CLASSES);
+            let class = shared_class.unwrap_or(*rng.pick(&NAME_CLASSES));
             let pre = cfg.auto && rng.chance(1, 3);
             let mut tr = make_tr(&mut rng, lens, bs, class, pre, keys_for(variant, ti));
+            tr.base_id = if shared_class.is_some() { 1 } else { ti + 1 };
             while trs.iter().any(|o: &Tr| o.data == tr.data) {
                 tr.data = rng.bytes(tr.data.len()); // pairwise different originals (see distinct_data)
             }
@@ -621,10 +723,17 @@ fn main() {
             wire.push(scripts[i][pos[i]].clone());
             pos[i] += 1;
         }
+        if cfg.auto && rng.chance(1, 3) {
+            // the environment creates a file with the base name of one of the transfers at some point of the script
+            let at = rng.below(wire.len() as u64 + 1) as usize;
+            let b = trs[rng.below(k as u64) as usize].base_id;
+            wire.insert(at, Item { t: 0, owner: 0, k: "ENV", pkg: b as u32, payload: vec![], orig: true, noise: 0 });
+            bump!("rnd_file_appears_in_auto_save_dir");
+        }
         if k > 1 { bump!("rnd_interleaved_transfers"); }
         let (res, obs) = run_case(&dirs, case, &cfg, &mut trs, &wire, &mut rng);
         for kd in &obs.kinds { bump!(format!("rnd_final_{}", kd)); }
-        emit_case(&mut t, case, hdr_json(&cfg, &trs, &wire, "random"), res);
+        emit_case(&mut t, case, hdr_json(&cfg, &trs, &wire, "random", &obs.envs), res);
         case += 1;
         let _ = ri;
     }
